@@ -21,6 +21,27 @@ add("C13", True,
     "Trusted: reference traversal semantics of DESIGN.md Appendix A; skip_subtree only after an item was returned and before exhaustion; trees have a root.",
     "DESIGN.md 6/C13")
 
+add("C10", True,
+    "property-based differential testing (proptest) against an exact rational simplex with independently checked certificates (Farkas / ray / primal-dual)",
+    "Every generated constraint system (dyadic row classes incl. empty, lower-dimensional, unbounded, redundant, zero and parallel rows, plus raw floating-point systems) and objective is solved by the library and by an exact rational LP; status, is_feasible, solve_linprog (both soundness and completeness directions, with the stated 1e-6 thin/margin dead zones) and the Chebyshev-centre program (shape, inscribed ball, radius bracketed by exact optima with norms rounded up/down) are judged per instance. Exploration: dims <= 6, <= 16 rows.",
+    "Trusted: rational arithmetic (num-bigint) and the 40-line certificate checker in harness/src/lp.rs (the simplex itself is untrusted: a wrong answer fails its certificate and aborts with exit 2). Known finding C10/unbounded_optimal_face is excluded only on an oracle-certified signature.",
+    "DESIGN.md 6/C10")
+add("C14", True,
+    "property-based testing (proptest) with an exact rational membership oracle on planted inside/boundary/outside points",
+    "For generated polytopes, points (anchors on planted hyperplanes, lattice neighbours, images), translation vectors, affine maps and exactly invertible non-symmetric integer matrices, contains()/distance() of the result of every transformation and constructor is compared with exact rational membership of the defining pre-image; every judged point is classified inside/boundary/outside and the dead zone is counted. Exploration: dims <= 6.",
+    "Trusted: exact rational evaluation; contains() tolerance as documented (1e-8 raw); simplex(d) judged in f64 with 1e-9 tolerance.",
+    "DESIGN.md 6/C14")
+add("C15", True,
+    "property-based testing (proptest); set equality decided per case by certified exact LP, structural subsequence check bitwise",
+    "For generated constraint systems from all row classes named in the property, each clean-up result must be a bitwise subsequence of the input (positive row scaling for normalize; documented canonical forms) and every dropped row must be implied by the kept rows (exact LP with certificate), so the point set is decided unchanged for that system; remove_redundant_row_constraints is additionally checked for rows implied with margin. Exploration: dims <= 5, <= 14 rows.",
+    "Trusted: exact LP oracle as in C10. Known finding C15/redundant_row_kept_via_unbounded_face excluded on certified signature only.",
+    "DESIGN.md 6/C15")
+add("C16", True,
+    "property-based testing (proptest) against exact rational evaluation of the defining identities (bit-for-bit in the dyadic regime)",
+    "Generated non-square, non-symmetric small dyadic maps and inputs in dims 1..10; every operator in all ownership/view variants, compose/stack/row/row_iter/remove_*/from_row_iter/conversions/all PolyRepr and every named constructor is compared exactly with rational evaluation of its documented meaning. Exploration over bounded dimensions.",
+    "Trusted: rational arithmetic; dyadic inputs keep the library's f64 arithmetic exact (so equality is exact, no tolerance).",
+    "DESIGN.md 6/C16")
+
 PENDING_REASON = "check not built yet in this round (planned; see DESIGN.md Appendix D) - no claim is made"
 
 ALL = ["C%02d" % i for i in range(1, 20)]
